@@ -116,6 +116,11 @@ func C04real(r *ev.Report) {
 func init() {
 	Parts["C04real"] = Part{"C04", C04real}
 	Replayers["C04"] = func(c Case) (bool, string) {
+		switch c["op"] {
+		case "bin", "equals", "unary", "predicate", "neighbour", "sqrt", "parse", "wide":
+			return Replayers["C12"](c)
+		}
+
 		if c["op"] == "persist" {
 			return Replayers["C10"](c)
 		}
